@@ -222,7 +222,51 @@ pub fn access(ctx: &mut Ctx) {
             }
         }
     }
-    let _ = Comp::B;
+    // the stack-id constants the id vectors are made of: T.ID pushes the id of its own stack
+    for name in ["BOOLEAN.ID", "BOOLVECTOR.ID", "CODE.ID", "EXEC.ID", "FLOAT.ID", "FLOATVECTOR.ID", "INTEGER.ID", "INTVECTOR.ID", "NAME.ID"] {
+        let mut m0 = M::default();
+        m0.i = vec![77];
+        exec_case(ctx, &mut real, name, &m0, |_, _, _| None);
+        // composition: an id vector built from T.ID, handed to LIST.ADD, takes from stack T and nothing else
+        let mut m1 = base_full();
+        m1.e = vec![Tree::ins(name), Tree::I(1), Tree::ins("INTVECTOR.FROMINT"), Tree::ins("LIST.ADD")];
+        let id = match ctx.take() {
+            Some(id) => id,
+            None => continue,
+        };
+        ctx.transitions += 1;
+        let before = m1.clone();
+        let fin = run_to_quiescence(&mut real, &m1, 16);
+        let (okey, v) = match fin {
+            None => ("did-not-finish".to_string(), Verdict::fail(name, "composition", "T.ID 1 INTVECTOR.FROMINT LIST.ADD did not finish".into())),
+            Some(g) => {
+                let t = crate::foot::stack_type(name.split('.').next().unwrap()).unwrap().0;
+                let mut want = before.clone();
+                want.e.clear();
+                let popped: Tree = match t {
+                    Comp::B => Tree::B(want.b.remove(0)),
+                    Comp::BV => Tree::BV(want.bv.remove(0)),
+                    Comp::C => want.c.remove(0),
+                    Comp::E => Tree::L(vec![]), // EXEC is empty when LIST.ADD runs: nothing to take
+                    Comp::F => Tree::F(want.f.remove(0)),
+                    Comp::FV => Tree::FV(want.fv.remove(0)),
+                    Comp::I => Tree::I(want.i.remove(0)),
+                    Comp::IV => Tree::IV(want.iv.remove(0)),
+                    Comp::N => Tree::Name(want.n.remove(0)),
+                    _ => unreachable!(),
+                };
+                let rec = if t == Comp::E { Tree::L(vec![]) } else { Tree::L(vec![popped]) };
+                want.c.insert(0, rec);
+                let d = want.diff(&g);
+                if d.is_empty() {
+                    (g.key(), Verdict::Pass)
+                } else {
+                    (g.key(), Verdict::fail(name, "composition", format!("differs in {:?}: {{{}}} expected {{{}}}", d, g.key(), want.key())))
+                }
+            }
+        };
+        ctx.record(id, &okey, v, || format!("( {} 1 INTVECTOR.FROMINT LIST.ADD ) on a populated state", name));
+    }
 }
 
 pub fn run(ctx: &mut Ctx) {
